@@ -830,7 +830,9 @@ class DepEngine(object):
         if isinstance(f, ast.Attribute):
             recv = self.ev(f.value, env, ctx)
             fav = self.field(recv, f.attr)
-            self.sites.append(Site('call', node, fr.qual, ctx, ctx, val=fav, depth=fr.depth, callee=unparse(f), args=args))
+            # the object that is called is a bound method of the receiver: it is "the function" only as <root>.<attr> (func.__call__)
+            called = AV(fav.d, [L + '.' + f.attr for L in recv.v if L in self.field_roots])
+            self.sites.append(Site('call', node, fr.qual, ctx, ctx, val=called, depth=fr.depth, callee=unparse(f), args=args))
             mod_call = isinstance(f.value, ast.Name) and env.get(f.value.id) is None and (f.value.id in self.module.imports or f.value.id in ('inspect', 'os', 'sys', 'copy', 'functools', 'itertools', 'collections'))
             if mod_call:
                 return self.named_call(node, f.attr, args, kws, alld, allv, env, ctx, recv)
